@@ -24,15 +24,16 @@
 EXTENDS Integers, Sequences, FiniteSets, SequencesExt, TLC
 
 -----------------------------------------------------------------------------
-\* NOTE on evaluation cost: TLC caches the value of an operator ARGUMENT in every evaluation
-\* context, but re-evaluates a LET definition at each use while it evaluates an action (measured:
-\* a LET used twice inside a RECURSIVE operator costs 2^depth there).  Shared intermediate
-\* results are therefore passed as arguments of small named helper operators.
+\* NOTE on evaluation cost: TLC represents [i \in S |-> e] lazily (FcnLambdaValue) and evaluates
+\* e again at EVERY application, so a sequence built that way and indexed several times (or
+\* nested in recursion) costs exponentially; every function constructor that stands for a
+\* sequence is therefore forced with TLCEval.  Shared intermediate results are passed as
+\* arguments of small named helper operators.
 
 \* sequence / bag helpers
-Map1(F(_), s) == [i \in 1..Len(s) |-> F(s[i])]
+Map1(F(_), s) == TLCEval([i \in 1..Len(s) |-> F(s[i])])
 SelIdx(s, P(_)) == LET idx == SetToSortSeq({i \in 1..Len(s) : P(i)}, <)
-                   IN [j \in 1..Len(idx) |-> s[idx[j]]]
+                   IN TLCEval([j \in 1..Len(idx) |-> s[idx[j]]])
 Cat(ss) == FlattenSeq(ss)
 Dedup(s) == SelIdx(s, LAMBDA i : \A j \in 1..(i - 1) : s[j] # s[i])
 BagOf(s) == [x \in ToSet(s) |-> Cardinality({i \in 1..Len(s) : s[i] = x})]
@@ -70,7 +71,7 @@ FilterP(f, x) ==
 
 FlatF(f, x) ==
     CASE f = "dup10" -> <<x, x + 10>>
-      [] f = "rep" -> [i \in 1..x |-> x]              \* x copies of x (none for 0)
+      [] f = "rep" -> TLCEval([i \in 1..x |-> x])             \* x copies of x (none for 0)
 
 FoldInit(f) ==
     CASE f = "sum" -> 0
@@ -139,7 +140,7 @@ Apply(t, a) ==
          [] op = "filter" -> SelectSeq(x, LAMBDA e : FilterP(f, e))
          [] op = "flat_map" -> Cat(Map1(LAMBDA e : FlatF(f, e), x))
          [] op = "unique" -> Dedup(x)
-         [] op = "enumerate" -> [i \in 1..Len(x) |-> <<i - 1, x[i]>>]
+         [] op = "enumerate" -> TLCEval([i \in 1..Len(x) |-> <<i - 1, x[i]>>])
          [] op = "scan" -> ScanAll(f, x)
          [] op = "sort" -> SortItems("int", x)
          [] op = "limit" -> SubSeq(x, 1, Min2(t.n, Len(x)))
@@ -175,13 +176,13 @@ Apply(t, a) ==
          [] op = "kfirst" -> Map1(LAMBDA k : <<k, Head(ValsOf(x, k))>>, Keys(x))
          \* per-key streaming operators: output position follows the input position of the element
          [] op = "kscan" ->
-              Cat([i \in 1..Len(x) |->
+              Cat(TLCEval([i \in 1..Len(x) |->
                      LET before == ValsOf(SubSeq(x, 1, i - 1), x[i][1])
                          st == ScanFrom(f, before, ScanInit(f), TRUE)
                          r == ScanF(f, st.s, x[i][2])
-                     IN IF st.alive THEN Map1(LAMBDA o : <<x[i][1], o>>, r.emit) ELSE <<>>])
+                     IN IF st.alive THEN Map1(LAMBDA o : <<x[i][1], o>>, r.emit) ELSE <<>>]))
          [] op = "kenumerate" ->
-              [i \in 1..Len(x) |-> <<x[i][1], <<Len(OfKey(SubSeq(x, 1, i - 1), x[i][1])), x[i][2]>>>>]
+              TLCEval([i \in 1..Len(x) |-> <<x[i][1], <<Len(OfKey(SubSeq(x, 1, i - 1), x[i][1])), x[i][2]>>>>])
          [] op = "key_count" -> <<Len(Keys(x))>>
          [] op = "get_max_key" ->
               IF x = <<>> THEN <<>>
@@ -191,7 +192,7 @@ Apply(t, a) ==
 
 -----------------------------------------------------------------------------
 \* inputs through tick T
-InUpTo(B, name, T) == Cat([k \in 1..T |-> B[k][name]])
+InUpTo(B, name, T) == Cat(TLCEval([k \in 1..T |-> B[k][name]]))
 
 InputDesc(P, name) == CHOOSE d \in ToSet(P.inputs) : d.name = name
 
@@ -210,9 +211,9 @@ RECURSIVE Den(_, _, _, _), TickDen(_, _, _, _)
 Den(P, t, B, T) ==
     CASE t.op = "input" -> Canon(InputDesc(P, t.f), InUpTo(B, t.f, T))
       [] t.op = "const" -> IF T >= 1 THEN t.c ELSE <<>>
-      [] t.op = "all_ticks" -> Cat([k \in 1..T |-> TickDen(P, t.in[1], B, k)])
+      [] t.op = "all_ticks" -> Cat(TLCEval([k \in 1..T |-> TickDen(P, t.in[1], B, k)]))
       [] t.op = "latest" -> IF T >= 1 THEN TickDen(P, t.in[1], B, T) ELSE <<>>
-      [] OTHER -> Apply(t, [i \in 1..Len(t.in) |-> Den(P, t.in[i], B, T)])
+      [] OTHER -> Apply(t, TLCEval([i \in 1..Len(t.in) |-> Den(P, t.in[i], B, T)]))
 
 \* operators that look at one element at a time: batching commutes with them
 RECURSIVE Stateless(_)
@@ -237,7 +238,7 @@ TickDen(P, t, B, k) ==
       [] t.op = "defer_tick" -> IF k = 1 THEN <<>> ELSE TickDen(P, t.in[1], B, k - 1)
       [] t.op = "cycle" -> IF k = 1 THEN <<>> ELSE TickDen(P, P.cycles[t.f], B, k - 1)
       [] t.op = "tick_const" -> t.c
-      [] OTHER -> Apply(t, [i \in 1..Len(t.in) |-> TickDen(P, t.in[i], B, k)])
+      [] OTHER -> Apply(t, TLCEval([i \in 1..Len(t.in) |-> TickDen(P, t.in[i], B, k)]))
 
 -----------------------------------------------------------------------------
 \* comparison of an observed collection with a denoted one, by collection kind
@@ -300,7 +301,7 @@ Broken(P, B, outs) ==
     Verdict(P, Len(B), IsTickProg(P), outs,
             IF IsTickProg(P) THEN <<>> ELSE FinalObs(P, outs),
             IF IsTickProg(P) THEN <<>> ELSE Den(P, P.term, B, Len(B)),
-            IF IsTickProg(P) THEN [k \in 1..Len(B) |-> TickDen(P, P.term.in[1], B, k)] ELSE <<>>)
+            IF IsTickProg(P) THEN TLCEval([k \in 1..Len(B) |-> TickDen(P, P.term.in[1], B, k)]) ELSE <<>>)
    \cup (IF P.mono = "boundedvalue_stream"
         THEN (IF ~DistinctKeys(Cat(outs)) THEN {"mono"} ELSE {})
         ELSE IF P.mono # "" /\ \E k \in 1..(Len(B) - 1) : ~MonoStep(P.mono, outs[k], outs[k + 1])
